@@ -56,12 +56,33 @@ var optSets = [][]opt.Spec{
 	{opt.B("StringifyNumbers", true), {Name: "DefaultOptionsV1"}},
 }
 
+// falseOpts are added with the value false (the v2 default of each).
+var falseOpts = []string{"StringifyNumbers", "Deterministic", "FormatNilSliceAsNull", "FormatNilMapAsNull", "OmitZeroStructFields", "MatchCaseInsensitiveNames",
+	"RejectUnknownMembers", "FormatByteArrayAsArray", "FormatBytesWithLegacySemantics", "OmitEmptyWithLegacySemantics", "StringifyWithLegacySemantics",
+	"MergeWithLegacySemantics", "UnmarshalArrayFromAnyLength", "ParseBytesWithLooseRFC4648", "ParseTimeWithLooseRFC3339", "CallMethodsWithLegacySemantics",
+	"ReportErrorsWithLegacySemantics", "FormatDurationAsNano", "EscapeForHTML", "EscapeForJS", "Multiline", "SpaceAfterComma", "SpaceAfterColon",
+	"AllowDuplicateNames", "AllowInvalidUTF8", "PreserveRawStrings", "CanonicalizeRawInts", "CanonicalizeRawFloats", "ReorderRawObjects"}
+
 func genCase(formats bool) func(t *rapid.T) Case {
 	return func(t *rapid.T) Case {
 		c := Case{Opts: append([]opt.Spec(nil), rapid.SampledFrom(optSets).Draw(t, "optset")...)}
 		durNoFormat, legacy := false, false
+		if len(c.Opts) <= 1 && (len(c.Opts) == 0 || c.Opts[0].Name != "DefaultOptionsV1") && rapid.IntRange(0, 2).Draw(t, "explicit-false") == 0 {
+			// options that are present but false: they must behave like absent ones
+			n := rapid.IntRange(1, 3).Draw(t, "nfalse")
+			for i := 0; i < n; i++ {
+				name := rapid.SampledFrom(falseOpts).Draw(t, "falseopt")
+				dup := false
+				for _, o := range c.Opts {
+					dup = dup || o.Name == name
+				}
+				if !dup {
+					c.Opts = append(c.Opts, opt.B(name, false))
+				}
+			}
+		}
 		for _, o := range c.Opts {
-			if o.Name == "DefaultOptionsV1" || o.Name == "FormatDurationAsNano" {
+			if o.Name == "DefaultOptionsV1" || (o.Name == "FormatDurationAsNano" && o.B) {
 				durNoFormat = true
 			}
 			if o.Name == "DefaultOptionsV1" {
